@@ -10,6 +10,7 @@ EXPLANATION = (
     "Effect analysis by reachability: from the roots {both runners, both step functions, every Agent / MarketAgent / "
     "AgentSet / MarketAgentSet::update impl, the agent helper functions, the PyO3 step and constructors} no call path reaches "
     "a deny-listed source of nondeterminism (thread_rng, random(), OsRng, from_entropy, getrandom, SystemTime/Instant::now, "
+    "process-wide once-initialised or shared mutable statics (OnceLock, Lazy, atomics, Mutex), "
     "std::env, std::thread, file/network I/O, available_parallelism, RandomState / HashMap / HashSet construction or "
     "iteration, pointer-to-integer casts, pointer formatting, TypeId/type_name). Generator threading: every draw site takes "
     "its generator argument from the enclosing function's own generator parameter (through reborrows and closure captures); "
@@ -27,6 +28,8 @@ DENY = [
     (r"std::thread::|available_parallelism|rayon", "threads"),
     (r"std::fs::|std::net::|std::io::stdin|File::", "file / network I/O"),
     (r"RandomState|collections::hash|HashMap|HashSet", "hash-order dependent collection"),
+    (r"OnceLock|OnceCell|LazyLock|LazyCell|lazy_static|once_cell|sync::Once\b|Once::call_once|thread_local|LocalKey", "process-wide / thread-wide state initialised once (the first run decides what later runs see)"),
+    (r"sync::atomic|Atomic(U|I|Bool|Ptr)|sync::Mutex|sync::RwLock|Mutex<|RwLock<", "shared mutable state outliving a run"),
     (r"TypeId|type_name", "type identity"),
     (r"fmt::Pointer|pointer::fmt|as_ptr|addr\(\)", "address-dependent value"),
 ]
